@@ -38,6 +38,18 @@ pub fn held(p: *const u8, bytes: usize) -> bool {
     }
 }
 
+/// The buffer of a container whose own accessor reports `cap` elements of
+/// `elem` bytes holds exactly `claimed` bytes from the allocator. A container
+/// that never allocated (capacity 0) has a dangling pointer, which CBMC's
+/// object bounds cannot be asked about; it must then claim 0.
+pub fn buffer_held(p: *const u8, cap_bytes: usize, claimed: usize) -> bool {
+    if cap_bytes == 0 {
+        claimed == 0
+    } else {
+        held(p, claimed)
+    }
+}
+
 fn sym_cap_len(maxcap: usize) -> (usize, usize) {
     let cap: usize = sym::any();
     let len: usize = sym::any();
@@ -94,12 +106,12 @@ pub fn ms_vec_u16(script: u8) {
         3 => v.truncate(if len > 0 { len - 1 } else { 0 }),
         _ => {}
     }
-    vcover!(v.capacity() > v.len() && v.len() > 0, "vec: spare capacity");
+    vcover!(if script != 1, v.capacity() > v.len() && v.len() > 0, "vec: spare capacity");
     vcover!(v.capacity() == 0, "vec: no allocation");
     vassert!([C08], v.heap_size() == v.capacity() * 2, "Vec<u16>::heap_size is not capacity x element size");
     vassert!([C08], v.value_size() == size_of::<Vec<u16>>(), "value_size of a sized type is not size_of");
     compositional!(v);
-    vassert!([C09], held(v.as_ptr() as *const u8, v.heap_size()), "Vec<u16>::heap_size differs from the bytes held from the allocator");
+    vassert!([C09], buffer_held(v.as_ptr() as *const u8, v.capacity() * 2, v.heap_size()), "Vec<u16>::heap_size differs from the bytes held from the allocator");
     std::mem::forget(v);
     vend!();
 }
@@ -117,32 +129,36 @@ pub fn ms_string(script: u8) {
         3 => s.truncate(if len > 0 { len - 1 } else { 0 }),
         _ => {}
     }
-    vcover!(s.capacity() > s.len(), "string: spare capacity");
+    vcover!(if script != 1, s.capacity() > s.len(), "string: spare capacity");
     vassert!([C08], s.heap_size() == s.capacity(), "String::heap_size is not its capacity");
     compositional!(s);
-    vassert!([C09], held(s.as_ptr(), s.heap_size()), "String::heap_size differs from the bytes held from the allocator");
+    vassert!([C09], buffer_held(s.as_ptr(), s.capacity(), s.heap_size()), "String::heap_size differs from the bytes held from the allocator");
     // &str and &String are borrowed: 0
     let r: &str = &s;
-    vassert!([C08, C09], r.heap_size() == 0 && (&s).heap_size() == 0, "a borrowed reference contributes heap size");
-    vassert!([C08], r.value_size() == size_of::<&str>(), "value_size of a reference is not the reference's size");
+    let rs: &String = &s;
+    vassert!([C08, C09], <&str as HeapSize>::heap_size(&r) == 0 && <&String as HeapSize>::heap_size(&rs) == 0, "a borrowed reference contributes heap size");
+    vassert!([C08], <&str as ValueSize>::value_size(&r) == size_of::<&str>(), "value_size of a reference is not the reference's size");
     // Box<str>
     let len2 = s.len();
     let b: Box<str> = s.into_boxed_str();
     vassert!([C08], b.heap_size() == len2, "Box<str>::heap_size is not the string's length");
     compositional!(b);
-    vassert!([C09], held(b.as_ptr(), b.heap_size()), "Box<str>::heap_size differs from the bytes held from the allocator");
+    vassert!([C09], buffer_held(b.as_ptr(), len2, b.heap_size()), "Box<str>::heap_size differs from the bytes held from the allocator");
     std::mem::forget(b);
     vend!();
 }
 
-pub fn ms_vec_box() {
-    let (cap, len) = sym_cap_len(4);
+/// `cap` is concrete here: a buffer of pointers with a symbolic size is beyond
+/// the engine (the propositional encoding ran out of memory); the length is symbolic.
+pub fn ms_vec_box(cap: usize) {
+    let len: usize = sym::any();
+    sym::assume(len <= cap);
     let v: Vec<Box<u16>> = vec_of(cap, len, 4, |i| Box::new(i as u16));
     let want = cap * size_of::<Box<u16>>() + len * 2;
     vassert!([C08], v.heap_size() == want, "Vec<Box<u16>>::heap_size is not buffer + each element's heap size");
     compositional!(v);
     vblock!([C09], {
-        let mut ok = held(v.as_ptr() as *const u8, cap * size_of::<Box<u16>>());
+        let mut ok = buffer_held(v.as_ptr() as *const u8, v.capacity() * size_of::<Box<u16>>(), cap * size_of::<Box<u16>>());
         let mut i = 0;
         while i < 4 {
             if i < len {
@@ -183,14 +199,13 @@ pub fn ms_vec_string() {
     let c0: usize = sym::any();
     let c1: usize = sym::any();
     sym::assume(c0 <= 3 && c1 <= 3);
-    let cap: usize = sym::any();
-    sym::assume(cap >= 2 && cap <= 4);
+    let cap: usize = 3;
     let mut v: Vec<String> = Vec::with_capacity(cap);
     v.push(String::with_capacity(c0));
     v.push(String::with_capacity(c1));
     vassert!([C08], v.heap_size() == cap * size_of::<String>() + c0 + c1, "Vec<String>::heap_size is not buffer + each string's capacity");
     compositional!(v);
-    vassert!([C09], held(v.as_ptr() as *const u8, cap * size_of::<String>()) && held(v[0].as_ptr(), c0) && held(v[1].as_ptr(), c1), "Vec<String>: the buffers counted are not the ones held from the allocator");
+    vassert!([C09], held(v.as_ptr() as *const u8, cap * size_of::<String>()) && buffer_held(v[0].as_ptr(), v[0].capacity(), c0) && buffer_held(v[1].as_ptr(), v[1].capacity(), c1), "Vec<String>: the buffers counted are not the ones held from the allocator");
     // slices, boxed slices
     let sl: &[String] = &v[..];
     vassert!([C08], HeapSize::heap_size(sl) == c0 + c1 && ValueSize::value_size(sl) == 2 * size_of::<String>(), "[String]: heap_size / value_size wrong");
@@ -221,7 +236,7 @@ pub fn ms_wrappers() {
     let b: Box<String> = Box::new(String::with_capacity(c0));
     vassert!([C08], b.heap_size() == size_of::<String>() + c0, "Box<T>::heap_size is not T's mem_size");
     compositional!(b);
-    vassert!([C09], held(&*b as *const String as *const u8, size_of::<String>()) && held(b.as_ptr(), c0), "Box<String>: buffers not the ones held");
+    vassert!([C09], held(&*b as *const String as *const u8, size_of::<String>()) && buffer_held(b.as_ptr(), b.capacity(), c0), "Box<String>: buffers not the ones held");
     let w = Wrapping(7u64);
     vassert!([C08], w.heap_size() == 0 && w.mem_size() == 8, "Wrapping<u64> size wrong");
     let t1 = (String::with_capacity(c0),);
@@ -315,8 +330,7 @@ pub fn ms_vec_tuple() {
     vend!();
 }
 
-pub fn ms_binary_heap() {
-    let (cap, len) = sym_cap_len(3);
+pub fn ms_binary_heap(cap: usize, len: usize) {
     let mut h: BinaryHeap<Box<u8>> = BinaryHeap::with_capacity(cap);
     let mut i = 0;
     while i < 3 {
@@ -345,12 +359,12 @@ pub fn ms_ffi() {
     vcover!(o.capacity() > o.len(), "OsString: spare capacity");
     vassert!([C08], o.heap_size() == o.capacity(), "OsString::heap_size is not its capacity");
     compositional!(o);
-    vassert!([C09], held(o.as_encoded_bytes().as_ptr(), o.heap_size()), "OsString::heap_size differs from the bytes held from the allocator");
+    vassert!([C09], buffer_held(o.as_encoded_bytes().as_ptr(), o.capacity(), o.heap_size()), "OsString::heap_size differs from the bytes held from the allocator");
     let ocap = o.capacity();
     let p = PathBuf::from(o);
     vcover!(p.capacity() > p.as_os_str().len(), "PathBuf: spare capacity");
     compositional!(p);
-    vassert!([C09], held(p.as_os_str().as_encoded_bytes().as_ptr(), p.heap_size()), "PathBuf::heap_size differs from the bytes held from the allocator (spare capacity is not counted)");
+    vassert!([C09], buffer_held(p.as_os_str().as_encoded_bytes().as_ptr(), p.capacity(), p.heap_size()), "PathBuf::heap_size differs from the bytes held from the allocator (spare capacity is not counted)");
     std::mem::forget(p);
     vend!();
 }
@@ -385,12 +399,32 @@ pub fn ms_locks() {
 /// `recbound=`); a recursion unwinding assertion failure means the depth grows.
 pub fn ms_recursion<const N: usize>() {
     let m: usize = sym::any();
-    sym::assume(m <= 4);
-    let v: Vec<[String; N]> = vec_of(4, m, 4, |_| std::array::from_fn(|_| String::new()));
-    vcover!(m == 4, "recursion probe: four sections");
-    vassert!([C08], v.heap_size() == 4 * size_of::<[String; N]>(), "Vec<[String; N]>::heap_size wrong");
+    sym::assume(m <= 3);
+    let v: Vec<[String; N]> = vec_of(3, m, 3, |_| std::array::from_fn(|_| String::new()));
+    vcover!(m == 3, "recursion probe: three sections");
+    vassert!([C08], v.heap_size() == 3 * size_of::<[String; N]>(), "Vec<[String; N]>::heap_size wrong");
     std::mem::forget(v);
     vend!();
+}
+
+/// Native witness for a recursion-depth failure: the same computation on a
+/// vector of `count` sections (dev profile: the stack is exhausted if the
+/// recursion depth grows with the element count).
+#[cfg(not(kani))]
+pub fn ms_recursion_big<const N: usize>(count: usize) {
+    let v: Vec<[String; N]> = (0..count).map(|_| std::array::from_fn(|_| String::new())).collect();
+    let h = v.heap_size();
+    println!("heap_size of {} sections = {}", count, h);
+}
+#[cfg(not(kani))]
+pub fn dispatch_big(h: &str) -> bool {
+    match h {
+        "ms_recursion_0#big" => ms_recursion_big::<0>(20_000_000),
+        "ms_recursion_1#big" => ms_recursion_big::<1>(5_000_000),
+        "ms_recursion_2#big" => ms_recursion_big::<2>(3_000_000),
+        _ => return false,
+    }
+    true
 }
 
 harnesses! {
@@ -401,7 +435,9 @@ harnesses! {
     ms_string_push [7] => ms_string(0); //@ q=C08,C09 to=600 args=-Z,mem-predicates
     ms_string_shrink [7] => ms_string(1); //@ q=C09 to=600 args=-Z,mem-predicates
     ms_string_reserve [7] => ms_string(2); //@ q=C09 to=900 args=-Z,mem-predicates
-    ms_vec_box_sym [7] => ms_vec_box(); //@ q=C08,C09 to=900 args=-Z,mem-predicates
+    ms_vec_box_c3 [7] => ms_vec_box(3); //@ q=C08,C09 to=900 args=-Z,mem-predicates
+    ms_vec_box_c4 [7] => ms_vec_box(4); //@ t=C08,C09 to=900 args=-Z,mem-predicates
+    ms_vec_box_c1 [7] => ms_vec_box(1); //@ q=C08,C09 to=900 args=-Z,mem-predicates
     ms_vec_string_sym [7] => ms_vec_string(); //@ q=C08,C09 to=900 args=-Z,mem-predicates
     ms_wrappers_sym [7] => ms_wrappers(); //@ q=C08,C09 to=900 args=-Z,mem-predicates
     ms_tuples_wide_all [7] => ms_tuples_wide(); //@ q=C08 to=900
@@ -410,7 +446,8 @@ harnesses! {
     ms_vec_array_2 [7] => ms_vec_array::<2>(); //@ q=C08 to=900
     ms_vec_array_3 [7] => ms_vec_array::<3>(); //@ t=C08 to=1200
     ms_vec_tuple_sym [7] => ms_vec_tuple(); //@ q=C08 to=1200
-    ms_binary_heap_sym [7] => ms_binary_heap(); //@ q=C08 to=900
+    ms_binary_heap_c3_l2 [7] => ms_binary_heap(3, 2); //@ q=C08 to=900
+    ms_binary_heap_c1_l0 [7] => ms_binary_heap(1, 0); //@ q=C08 to=900
     ms_ffi_sym [7] => ms_ffi(); //@ q=C08,C09 to=900 args=-Z,mem-predicates
     ms_cstring_fixed [7] => ms_cstring(); //@ q=C08,C09 to=900 args=-Z,mem-predicates
     ms_locks_sym [7] => ms_locks(); //@ q=C08 to=900
